@@ -647,6 +647,87 @@ theorem decodeUDP_accept (bs : Bytes) (a : Addr) (port : Nat) (payload : Bytes)
         have e2 : (p1.toNat * 256 + p2.toNat) % 256 = p2.toNat := by omega
         simp [Datagram.enc, encPort, hbs, ← hat, u8_toNat, e1, e2]
 
+/-! ### The negotiation reference accepts only sentences of the grammar -/
+
+theorem decodeReq_accept (pf : Profile) (off : Nat) (pre bs : Bytes) (cmd : Nat) (a : Addr) (port used : Nat)
+    (pre' : Bytes) (h : decodeReq pf off pre bs = .accept cmd a port used pre') :
+    ∃ (rsv : Byte) (rest : Bytes),
+      bs = (⟨cmd, rsv, a, port⟩ : Request).enc ++ rest ∧ (⟨cmd, rsv, a, port⟩ : Request).WF = true ∧
+      pf.cmds.contains cmd = true ∧ used = off + (⟨cmd, rsv, a, port⟩ : Request).enc.length ∧ pre' = pre := by
+  match bs, h with
+  | ver :: c :: rsv :: atyp :: rest, h =>
+    simp only [decodeReq] at h
+    by_cases hv : ver.toNat ≠ 5
+    · simp [hv] at h
+    by_cases hc : ¬ pf.cmds.contains c.toNat = true
+    · simp only [hv, hc, not_false_eq_true, if_true, if_false] at h
+      cases h
+    simp only [hv, hc, if_false] at h
+    cases hd : decAddr atyp.toNat rest with
+    | bad => simp [hd] at h
+    | short => simp [hd] at h
+    | ok a' rest' =>
+      rw [hd] at h
+      match rest', h, hd with
+      | p1 :: p2 :: tl, h, hd =>
+        simp only [Verdict.accept.injEq] at h
+        obtain ⟨hcmd, ha, hp, hu, hpre⟩ := h
+        subst hcmd ha hpre
+        obtain ⟨hwf, hbs, hat⟩ := decAddr_ok _ _ _ _ hd
+        have h1 := UInt8.toNat_lt p1
+        have h2 := UInt8.toNat_lt p2
+        have hcl := UInt8.toNat_lt c
+        have hv5 : ver = 5 := by
+          apply UInt8.toNat_inj.mp
+          have : ver.toNat = 5 := by omega
+          simpa using this
+        refine ⟨rsv, tl, ?_, ?_, by simpa using hc, ?_, rfl⟩
+        · subst hp hv5
+          have e1 : (p1.toNat * 256 + p2.toNat) / 256 = p1.toNat := by omega
+          have e2 : (p1.toNat * 256 + p2.toNat) % 256 = p2.toNat := by omega
+          simp [Request.enc, encPort, hbs, ← hat, u8_toNat, e1, e2]
+        · simp [Request.WF, hwf, hcl]
+          omega
+        · subst hu
+          simp [Request.enc, encPort]
+          omega
+
+theorem decodeNeg_accept (pf : Profile) (hpf : pf.creds = none) (bs : Bytes) (cmd : Nat) (a : Addr)
+    (port used : Nat) (pre : Bytes) (h : decodeNeg pf bs = .accept cmd a port used pre) :
+    ∃ (methods : Bytes) (rsv : Byte) (rest : Bytes),
+      bs = encGreeting methods ++ ((⟨cmd, rsv, a, port⟩ : Request).enc ++ rest) ∧
+      0 < methods.length ∧ methods.length ≤ 255 ∧ methods.contains (u8 pf.method) = true ∧
+      (⟨cmd, rsv, a, port⟩ : Request).WF = true ∧ pf.cmds.contains cmd = true ∧
+      used = (encGreeting methods).length + (⟨cmd, rsv, a, port⟩ : Request).enc.length ∧
+      pre = [5, u8 pf.method] := by
+  match bs, h with
+  | ver :: nm :: rest, h =>
+    simp only [decodeNeg] at h
+    by_cases hv : ver.toNat ≠ 5
+    · simp [hv] at h
+    by_cases hn : nm.toNat = 0
+    · simp [hv, hn] at h
+    by_cases hl : rest.length < nm.toNat
+    · simp [hv, hn, hl] at h
+    by_cases hm : ¬ (rest.take nm.toNat).contains (u8 pf.method) = true
+    · simp only [hv, hn, hl, hm, not_false_eq_true, if_true, if_false] at h
+      cases h
+    simp only [hv, hn, hl, hm, if_false, hpf] at h
+    obtain ⟨rsv, tl, hbs, hwf, hc, hu, hpre⟩ := decodeReq_accept _ _ _ _ _ _ _ _ _ h
+    have hnl := UInt8.toNat_lt nm
+    have htl : (rest.take nm.toNat).length = nm.toNat := by simp; omega
+    have hv5 : ver = 5 := by
+      apply UInt8.toNat_inj.mp
+      have : ver.toNat = 5 := by omega
+      simpa using this
+    refine ⟨rest.take nm.toNat, rsv, tl, ?_, by omega, by omega, by simpa using hm, hwf, hc, ?_, hpre⟩
+    · subst hv5
+      rw [← hbs]
+      simp [encGreeting, htl, u8_toNat]
+    · subst hu
+      simp [encGreeting, htl]
+      omega
+
 /-! ### Round trip -/
 
 theorem parse_ipString (c : IPText) (hrt : c.RT) (b : Bytes)
